@@ -87,6 +87,9 @@ pub fn gen_batches(r: &mut Rng, len: usize) -> Vec<Value> {
     let mut out = vec![];
     let mut now = 5u64;
     let mut t = 0;
+    // remote inserts sent so far: now and then one of them is sent again, byte for byte (a duplicate delivery) - whatever
+    // the state of the document has become in the meantime
+    let mut sent_remote: Vec<Value> = vec![];
     while t < len {
         let n = 1 + r.below(4);
         now += r.below(3) as u64;
@@ -120,6 +123,12 @@ pub fn gen_batches(r: &mut Rng, len: usize) -> Vec<Value> {
             }
             if x >= 100 {
                 x = 99;
+            }
+            if !sent_remote.is_empty() && r.chance(1, 16) {
+                let mut q = sent_remote[r.below(sent_remote.len())].clone();
+                q["now"] = json!(now);
+                reqs.push(q);
+                continue;
             }
             if CAP_FOCUS.with(|c| c.get()) && r.chance(2, 3) {
                 let d = if r.chance(3, 4) { 2 } else { d };
@@ -255,6 +264,9 @@ pub fn gen_batches(r: &mut Rng, len: usize) -> Vec<Value> {
                 req("Flush", d)
             };
             q["now"] = json!(now);
+            if q["op"] == "InsertRemote" {
+                sent_remote.push(q.clone());
+            }
             reqs.push(q);
         }
         t += n;
